@@ -37,6 +37,12 @@ pub struct FragCase {
 
 /// A sample payload in the codec's MP4 framing (the fragmented muxer stores whatever it is given, unchanged).
 pub fn realistic_payload(codec: u8, size: usize, sync: bool, tag: u64) -> Vec<u8> {
+    realistic_payload_with(codec, size, sync, tag, None)
+}
+
+/// `inband`: the (vps, sps, pps) NAL units to carry in front of a sync sample's slice instead of the built-in ones
+/// (e.g. exactly the configured parameter sets, as every encoder that repeats its headers on IDR frames does)
+pub fn realistic_payload_with(codec: u8, size: usize, sync: bool, tag: u64, inband: Option<(&[u8], &[u8], &[u8])>) -> Vec<u8> {
     let body = filler(size.max(1), tag, 0);
     let mut out = Vec::new();
     let mut nal = |hdr: &[u8], payload: &[u8]| {
@@ -47,8 +53,16 @@ pub fn realistic_payload(codec: u8, size: usize, sync: bool, tag: u64) -> Vec<u8
     match codec % 4 {
         0 => {
             if sync {
-                nal(&[0x67], &[0x42, 0x00, 0x1e, 0x8d, 0x68, 0x50, (tag & 0x7f) as u8 | 0x10]);
-                nal(&[0x68], &[0xce, 0x3c, 0x80]);
+                match inband {
+                    Some((_, sps, pps)) if !sps.is_empty() && !pps.is_empty() => {
+                        nal(&[], sps);
+                        nal(&[], pps);
+                    }
+                    _ => {
+                        nal(&[0x67], &[0x42, 0x00, 0x1e, 0x8d, 0x68, 0x50, (tag & 0x7f) as u8 | 0x10]);
+                        nal(&[0x68], &[0xce, 0x3c, 0x80]);
+                    }
+                }
                 nal(&[0x65], &body);
             } else {
                 nal(&[0x41], &body);
@@ -56,9 +70,18 @@ pub fn realistic_payload(codec: u8, size: usize, sync: bool, tag: u64) -> Vec<u8
         }
         1 => {
             if sync {
-                nal(&[0x40, 0x01], &[0x0c, 0x01, 0xff, 0xff, 0x01, 0x60]);
-                nal(&[0x42, 0x01], &[0x01, 0x01, 0x60, 0x10, 0x10, 0x90, 0x11, (tag & 0x7f) as u8 | 0x10]);
-                nal(&[0x44, 0x01], &[0xc1, 0x72, 0xb4]);
+                match inband {
+                    Some((vps, sps, pps)) if !vps.is_empty() && !sps.is_empty() && !pps.is_empty() => {
+                        nal(&[], vps);
+                        nal(&[], sps);
+                        nal(&[], pps);
+                    }
+                    _ => {
+                        nal(&[0x40, 0x01], &[0x0c, 0x01, 0xff, 0xff, 0x01, 0x60]);
+                        nal(&[0x42, 0x01], &[0x01, 0x01, 0x60, 0x10, 0x10, 0x90, 0x11, (tag & 0x7f) as u8 | 0x10]);
+                        nal(&[0x44, 0x01], &[0xc1, 0x72, 0xb4]);
+                    }
+                }
                 nal(&[0x26, 0x01], &body);
             } else {
                 nal(&[0x02, 0x01], &body);
@@ -90,8 +113,9 @@ pub fn fcfg(c: &FragCase) -> FCfg {
         codec: c.codec % 4,
         width: c.width.max(1) as u32,
         height: c.height.max(1) as u32,
-        sps: filler(c.pset_len.0 as usize, 0x51, 3),
-        pps: filler(c.pset_len.1 as usize, 0x52, 3),
+        // one configuration in seven is the library's own example parameter sets (default_avc_config)
+        sps: if c.codec % 4 == 0 && c.pset_len.0 % 7 == 3 { muxide::codec::h264::default_avc_config().sps } else { filler(c.pset_len.0 as usize, 0x51, 3) },
+        pps: if c.codec % 4 == 0 && c.pset_len.0 % 7 == 3 { muxide::codec::h264::default_avc_config().pps } else { filler(c.pset_len.1 as usize, 0x52, 3) },
         vps: filler(c.pset_len.2 as usize, 0x53, 3),
         av1: obu(1, false, 0, true, 0, &seq.payload()),
         vp9: Vp9Lite {
@@ -127,6 +151,7 @@ pub struct LoweredFrag {
 }
 
 pub fn lower(c: &FragCase) -> LoweredFrag {
+    let cfg0 = fcfg(c);
     let mut ops = Vec::new();
     let mut cur = c.start;
     let mut n = 0u64;
@@ -143,7 +168,13 @@ pub fn lower(c: &FragCase) -> LoweredFrag {
                 };
                 let pts = if *cts >= 0 { dts + *cts as u64 } else { dts.saturating_sub((-(*cts as i64)) as u64) };
                 let tag = (3u64 << 60) | (n << 20) | *size as u64;
-                let data = if c.realistic { realistic_payload(c.codec, *size as usize, *sync, tag) } else { filler(*size as usize, tag, 0) };
+                let data = if c.realistic {
+                    // a third of the realistic cases repeat exactly the configured parameter sets in-band on sync samples
+                    let inband = if c.pset_len.1 % 3 == 0 { Some((&cfg0.vps[..], &cfg0.sps[..], &cfg0.pps[..])) } else { None };
+                    realistic_payload_with(c.codec, *size as usize, *sync, tag, inband)
+                } else {
+                    filler(*size as usize, tag, 0)
+                };
                 ops.push(FOp::Write { pts, dts, data, sync: *sync });
                 n += 1;
             }
@@ -153,7 +184,7 @@ pub fn lower(c: &FragCase) -> LoweredFrag {
             FGene::Init => ops.push(FOp::Init),
         }
     }
-    LoweredFrag { cfg: fcfg(c), ops }
+    LoweredFrag { cfg: cfg0, ops }
 }
 
 /// One emitted segment together with what the model says it must contain.
